@@ -19,6 +19,13 @@ for d in sorted(glob.glob('/verif/seeded/C*-*')):
             code = 'caught (VIOLATION, no-failing-input-found)'
         verdicts.append(f'{c}: {code}' + (f' — `{ob}`' if ob and v['exit'] == 1 else ''))
     rows.append(f"| {sid} | {meta.get('summary', '')[:150].replace('|', '/')} | {'; '.join(verdicts) or 'not run'} |")
-print('| seeded change | what it does | result of the property\'s quick check |')
-print('|---|---|---|')
-print('\n'.join(rows))
+table = '| seeded change | what it does | result of the property\'s quick check |\n|---|---|---|\n' + '\n'.join(rows)
+import sys
+if '--write' in sys.argv:
+    import re
+    p = '/verif/DESIGN.md'
+    s = open(p).read()
+    s = re.sub(r'<!-- SEEDED_TABLE_BEGIN -->.*?<!-- SEEDED_TABLE_END -->', lambda m: '<!-- SEEDED_TABLE_BEGIN -->\n' + table + '\n<!-- SEEDED_TABLE_END -->', s, flags=re.S)
+    open(p, 'w').write(s)
+else:
+    print(table)
